@@ -267,4 +267,13 @@ def main(argv=None):
 
 
 if __name__ == "__main__":
-    sys.exit(main())
+    try:
+        code = main()
+    except SystemExit:
+        raise
+    except BaseException:          # never let a crash look like a violation (exit 1)
+        import traceback
+        traceback.print_exc()
+        print("ENGINE-ERROR: the checker itself crashed (see traceback); no verdict")
+        code = EXIT_ENGINE
+    sys.exit(code)
